@@ -113,7 +113,7 @@ Garbage(r) ==
     \cup {[r EXCEPT !.cid = c] : c \in {"nosender", "notarget", "emptysender", "emptytarget"}}
     \cup {[r EXCEPT !.pd = "bad"], [r EXCEPT !.val = "bad"], [r EXCEPT !.bs = "wrong"]}
 GarbageEvents ==
-    {K("Connect"), K("Disconnected"), K("Stop"), T("PeerTimeout"), LogonOK, In(R("D", 2)), In(R("D", 0)),
+    {K("Connect"), K("Disconnected"), K("Stop"), T("PeerTimeout"), LogonOK, In(R("A", 2)), In(R("D", 2)), In(R("D", 1)), In(R("D", 0)),
      In([R("1", 0) EXCEPT !.trid = "T1"]), In(R("garbled", 0))}
     \cup {In(g) : g \in UNION {Garbage(R(t, 0)) : t \in {"D", "0", "1", "2", "4", "5", "A", "3"}}}
     \cup {In([PossDup(R("D", -1)) EXCEPT !.ost = o]) : o \in {"none", "bad", "after"}}
